@@ -47,6 +47,7 @@ Fixpoint climbs_aux (depth : nat) (cs : list (list N)) : bool :=
 Definition climbs (P : list N) : bool := climbs_aux 0 (comps P).
 
 Definition HEAD : list N := [72;69;65;68].
+Definition is_ghO (m : list N) : bool := beqs m GET || beqs m HEAD || beqs m OPTIONS.    (* GET, HEAD or OPTIONS *)
 Definition is_matching (fs : fsys) (r : request) : sres bool :=
   match path_or_panic (uri r) with SErr s => SErr s | SPanic s => SPanic s | SOk P =>
   if has_dotdot P then SOk false else
@@ -60,7 +61,7 @@ Definition is_matching (fs : fsys) (r : request) : sres bool :=
   | SOk (Some false) => SOk false                               (* directory without index.html *)
   | SOk didx =>
     let dir_idx := match didx with Some true => true | _ => false end in
-    let mm := (beqs (method r) GET || beqs (method r) HEAD || beqs (method r) OPTIONS) && negb (beqs (uri r) [47]) in
+    let mm := is_ghO (method r) && negb (beqs (uri r) [47]) in
     if can_open fs SP || dir_idx then SOk mm
     else if ends_with SP DOT_HTML then SOk false
     else SOk (can_open fs (cwd_str fs ++ P ++ DOT_HTML) && mm)
